@@ -107,6 +107,8 @@ VH_NOINSTR int main(int argc, char** argv) {
   vh_script.nops[nscript] = 1;
   vh_script.nfibers = nscript + 1;
   fiber_manager_init(k);
+  VH_DIRTY(mtx);
+  VH_DIRTY(cnd);
   fiber_mutex_init(&mtx);
   fiber_cond_init(&cnd);
   vr_reg(&cnd.waiter_count, sizeof cnd.waiter_count, "C.count");
